@@ -114,6 +114,7 @@ type c10Cfg struct {
 	DelayAut time.Duration
 	SlowHash bool // users hashed with an expensive parameter set: a login burst keeps the dispatcher busy for many seconds
 	Policy   bool // a password policy that the upgradeable users' passwords fail: every login-triggered upgrade fails
+	Reloads  int  // number of SIGHUPs (unchanged configuration file) sent while the clients run
 }
 
 var c10Pids []string
@@ -142,7 +143,7 @@ func c10KillHooks(dir string) {
 }
 
 func TestVerifC10(t *testing.T) {
-	R := vr.New("C10", "progress", "bounded-progress monitor: N clients issue mixed authenticate/add/update/remove/set-admin/list requests (Store interface, HTTP, SASL socket) against agents in upgrade modes off/local/remote(healthy, unreachable, stalled master) with upgradeable users, hook directories with fast/failing/slow/hanging scripts and delay failpoints on the dispatcher; every request must return, afterwards one probe per request channel must return. A stall is reported only as a PROVED block: two goroutine dumps 1 s apart show the dispatcher goroutine blocked at the same place below dispatchRequests (or idle while clients wait). Non-trivial: a configuration in which >= 2 clients overlapped and (in upgrade modes) upgrades were enqueued; distinct by configuration")
+	R := vr.New("C10", "progress", "bounded-progress monitor: N clients issue mixed authenticate/add/update/remove/set-admin/list requests (Store interface, HTTP, SASL socket) against agents in upgrade modes off/local/remote(healthy, unreachable, stalled master) with upgradeable users, hook directories with fast/failing/slow/hanging scripts, reload signals in the middle of the stream (every other configuration) and delay failpoints on the dispatcher; every request must return, afterwards one probe per request channel must return. A stall is reported only as a PROVED block: two goroutine dumps 1 s apart show the dispatcher goroutine blocked at the same place below dispatchRequests (or idle while clients wait). Non-trivial: a configuration in which >= 2 clients overlapped and (in upgrade modes) upgrades were enqueued; distinct by configuration")
 	defer R.Write()
 	rng := R.Rand("c10")
 	verifSetLogging(true)
@@ -157,7 +158,7 @@ func TestVerifC10(t *testing.T) {
 			m = "local"
 		}
 		cfgs = append(cfgs, c10Cfg{Name: fmt.Sprintf("cfg%d-%s", i, m), Mode: m, Clients: []int{4, 16, 40, 64}[rng.Intn(4)], Requests: nreq,
-			Hooks: i%2 == 0, Frontend: i%3 == 0, Policy: m == "local" && i%2 == 1, DelayUpd: time.Duration(rng.Intn(4)) * time.Millisecond, DelayAut: time.Duration(rng.Intn(2)) * 200 * time.Microsecond})
+			Hooks: i%2 == 0, Frontend: i%3 == 0, Policy: m == "local" && i%2 == 1, Reloads: []int{0, 4, 0, 3}[i%4], DelayUpd: time.Duration(rng.Intn(4)) * time.Millisecond, DelayAut: time.Duration(rng.Intn(2)) * 200 * time.Microsecond})
 	}
 	cfgs = append(cfgs, c10Cfg{Name: "cfg-slowhash", Mode: "", Clients: 64, Requests: 64 * vr.Pick(1, 6), SlowHash: true})
 	occ := map[string]int{}
@@ -361,6 +362,25 @@ func c10Run(R *vr.Result, rng *rand.Rand, c c10Cfg, occ map[string]int) {
 	}
 	done := make(chan struct{})
 	go func() { wg.Wait(); close(done) }()
+	if c.Reloads > 0 {
+		// reload signals in the middle of the request stream (configuration unchanged): the first one only after a request
+		// has been served, i.e. after the dispatcher has installed its handler
+		go func() {
+			for atomic.LoadInt64(&completed) < 1 {
+				time.Sleep(time.Millisecond)
+			}
+			for i := 0; i < c.Reloads; i++ {
+				time.Sleep(time.Duration(20+10*i) * time.Millisecond)
+				select {
+				case <-done:
+					return
+				default:
+				}
+				syscall.Kill(os.Getpid(), syscall.SIGHUP) //nolint:errcheck
+				R.Count("reload_signals_sent", 1)
+			}
+		}()
+	}
 	verdict := c10Watch(R, c.Name, done, &completed, &inflight)
 	probesOK := false
 	if verdict == "completed" {
